@@ -72,7 +72,14 @@ class Software:
             oversion, opatch = mx.group(1), mx.group(2).strip()
         else:
             oversion, opatch = other, ''
-        if self.version < oversion:
+        sversion_key = Software._version_key(self.version)
+        oversion_key = Software._version_key(oversion)
+        if sversion_key is not None and oversion_key is not None:  # Compare numerically, component by component (so that 10.0 > 9.9).
+            if sversion_key < oversion_key:
+                return -1
+            elif sversion_key > oversion_key:
+                return 1
+        elif self.version < oversion:
             return -1
         elif self.version > oversion:
             return 1
@@ -98,6 +105,14 @@ class Software:
         elif spatch > opatch:
             return 1
         return 0
+
+    @staticmethod
+    def _version_key(version: str) -> Optional[Tuple[int, ...]]:
+        '''Converts a dotted decimal version string into a tuple of integers, or returns None if it is not purely numeric.'''
+        try:
+            return tuple(int(x) for x in version.split('.'))
+        except ValueError:
+            return None
 
     def between_versions(self, vfrom: str, vtill: str) -> bool:
         if bool(vfrom) and self.compare_version(vfrom) < 0:
